@@ -45,6 +45,7 @@ DOC_KEY_MAP = {
     "typed": {"data_id": "i", "str": "s", "kind": "k"}, "typedcb": {"data_id": "i", "str": "s", "kind": "k"},
     "rectyped": {"data_id": "i", "str": "s", "kind": "k"},
     "recpop": {"data_id": "i", "str": "s"}, "recpoptyped": {"data_id": "i", "str": "s", "kind": "k"},
+    "recnest": {"data_id": "i", "str": "s"}, "recshort": {"data_id": "i", "str": "s"},
     "derived": {"data_id": "i", "str": "s", "type": "t", "name": "n", "size": "z"},  # c05.RecTree.DEFAULT_KEY_MAP
     "derivedtyped": {"data_id": "i", "str": "s", "kind": "k", "type": "t", "name": "n"},  # c05.EntTypedTree.DEFAULT_KEY_MAP
     "fs": {},
@@ -66,7 +67,11 @@ def long_payload(fam: Family, obj, custom_id: bool, data_id, kind):
         d["data_id"] = data_id
     if fam.typed:
         d["kind"] = kind
-    if isinstance(obj, Rec):
+    if fam.name == "recnest":
+        d.update({"type": "rec", "name": obj.name, "size": obj.size, "attrs": {"s": obj.size, "i": obj.name, "str": "v", "k": [obj.size, {"s": 1}]}})
+    elif fam.name == "recshort":
+        d.update({"t": "rec", "i": obj.name, "s": obj.size, "k": True})
+    elif isinstance(obj, Rec):
         d.update({"type": "rec", "name": obj.name, "size": obj.size})
     elif isinstance(obj, Ent):
         d.update({"type": "ent", "name": obj.name})
@@ -566,7 +571,7 @@ def case_list(tier: str):
 
 
 def writer_opts(fam: Family):
-    return [(k, v, m) for k in ("default", "off", "custom") for v in fam.value_map_names() for m in ("none", "meta")]
+    return [(k, v, m) for k in fam.km_names for v in fam.value_map_names() for m in ("none", "meta")]
 
 
 def func_w(fam):
@@ -594,7 +599,10 @@ def _chunk(chunk, prop):
                 for clause, text in diffs:
                     w = {"part": "writer", "family": famname, "spec": _spec_json(spec), "opts": list(opts), "clause": clause}
                     keep.add(Violation(prop, clause, func_w(fam), w, clip(f"[{famname}] {spec.short()} with {'/'.join(opts)}: {text}")), len(spec))
+            own_keys = {k for r in recs_from_spec(fam, spec) if isinstance(r[1], dict) for k in r[1]}
             for variant in header_variants(fam, labels):
+                if any(code in own_keys and variant[1].get(code) != code for code in variant[1].values()):
+                    continue  # the header would declare a code that is also one of the entries' own (long) keys: ambiguous by design
                 diffs = check_reader(fam, spec, variant)
                 res.add_case(f"R {famname} {spec.short()} :: {variant[0]}", nontrivial=len(spec) > 0)
                 for clause, text in diffs:
